@@ -355,3 +355,346 @@ pub fn mask_vec(m: &Option<ExtendedMask>) -> Option<Vec<Scalar>> {
 pub fn ext_of(d: usize) -> ExtensionDegree {
     ExtensionDegree::try_from(d).expect("degree")
 }
+
+// ------------------------------------------------------------------------------------------------
+// Single-component alterations of a (statement, proof, transcript) triple
+// ------------------------------------------------------------------------------------------------
+
+#[derive(Clone, Debug)]
+pub enum Alter {
+    Proof(Parts),
+    Promises(Vec<Option<u64>>),
+    Commitments(Vec<P>),
+    /// (bits, pedersen generators) of the verifier's parameters
+    Gens(usize, PedersenGens<P>),
+    Ctx(Context),
+}
+
+#[derive(Clone, Debug)]
+pub struct Mutation {
+    pub name: String,
+    pub alter: Alter,
+    /// a replacement that must NOT change the verdict (e.g. None <-> Some(0))
+    pub noop: bool,
+}
+
+/// The triple a verifier would be handed after the alteration; `Err` = refused already by the codec or a constructor
+pub struct Altered {
+    pub t: Transcript,
+    pub st: Stmt,
+    pub proof: Proof,
+    pub rst: RefStatement<P>,
+    pub parts: Parts,
+}
+
+pub fn apply_mutation(case: &Case, parts: &Parts, seed: Option<Scalar>, mu: &Mutation) -> Result<Altered, String> {
+    let mut p = parts.clone();
+    let mut promises = case.promises.clone();
+    let mut commitments = case.commitments.clone();
+    let mut prm = case.params();
+    let mut ctx = case.ctx.clone();
+    match &mu.alter {
+        Alter::Proof(x) => p = x.clone(),
+        Alter::Promises(x) => promises = x.clone(),
+        Alter::Commitments(x) => commitments = x.clone(),
+        Alter::Gens(n, pc) => {
+            prm = RangeParameters::init(*n, case.cfg.cap, pc.clone()).map_err(|e| format!("params: {e}"))?;
+        },
+        Alter::Ctx(c) => ctx = c.clone(),
+    }
+    let proof = p.to_proof().map_err(|e| format!("decode: {e}"))?;
+    let st = RangeStatement::init(prm.clone(), commitments.clone(), promises.clone(), seed).map_err(|e| format!("statement: {e}"))?;
+    let rst = ref_statement_of(&prm, commitments.len(), &commitments, &promises);
+    Ok(Altered { t: ctx.transcript(), st, proof, rst, parts: p })
+}
+
+fn pushm(v: &mut Vec<Mutation>, name: String, alter: Alter) {
+    v.push(Mutation { name, alter, noop: false });
+}
+
+fn bump_scalar(b: &[u8; 32], how: usize, rng: &mut impl RngCore) -> [u8; 32] {
+    let s = Option::<Scalar>::from(Scalar::from_canonical_bytes(*b)).unwrap_or(Scalar::ZERO);
+    let r = match how % 4 {
+        0 => s + Scalar::ONE,
+        1 => -s,
+        2 => Scalar::ZERO,
+        _ => rand_scalar(rng),
+    };
+    let r = if r == s { s + Scalar::from(2u8) } else { r };
+    r.to_bytes()
+}
+
+/// Every single-component alteration of the triple (each proof scalar and point position, round count, degree
+/// byte, each commitment, commitment order, each promise, bit length, each generator, transcript context).
+/// `density` selects how many replacement values per position (1 = one, rotating; 4 = all kinds).
+pub fn mutations(case: &Case, parts: &Parts, other: Option<&Parts>, density: usize, rng: &mut impl RngCore) -> Vec<Mutation> {
+    let mut v: Vec<Mutation> = vec![];
+    let cfg = case.cfg;
+    let rot = (rng.next_u32() % 16) as usize;
+    // --- scalars
+    let n_sc = 2 + parts.d1.len();
+    for pos in 0..n_sc {
+        for how in 0..density.min(4) {
+            let how = how + rot + pos;
+            let mut p = parts.clone();
+            let (name, slot): (String, &mut [u8; 32]) = match pos {
+                0 => ("r1".into(), &mut p.r1),
+                1 => ("s1".into(), &mut p.s1),
+                k => (format!("d1[{}]", k - 2), &mut p.d1[k - 2]),
+            };
+            *slot = bump_scalar(slot, how, rng);
+            pushm(&mut v, format!("proof.{name} -> {}", ["+1", "negated", "zero", "random"][how % 4]), Alter::Proof(p));
+        }
+    }
+    // --- points: A, A1, B, each L_j, R_j
+    let n_pt = 3 + 2 * parts.lr.len();
+    for pos in 0..n_pt {
+        let kinds = 5usize;
+        for how in 0..density.min(kinds) {
+            let how = (how + rot + pos) % kinds;
+            let mut p = parts.clone();
+            let cur: [u8; 32];
+            let name: String;
+            {
+                let slot: &mut [u8; 32] = match pos {
+                    0 => {
+                        name = "A".into();
+                        &mut p.a
+                    },
+                    1 => {
+                        name = "A1".into();
+                        &mut p.a1
+                    },
+                    2 => {
+                        name = "B".into();
+                        &mut p.b
+                    },
+                    k => {
+                        let j = (k - 3) / 2;
+                        if (k - 3) % 2 == 0 {
+                            name = format!("L[{j}]");
+                            &mut p.lr[j].0
+                        } else {
+                            name = format!("R[{j}]");
+                            &mut p.lr[j].1
+                        }
+                    },
+                };
+                cur = *slot;
+                let repl: [u8; 32] = match how {
+                    0 => enc(&<P as Gx>::random_point(rng)),
+                    1 => [0u8; 32], // identity
+                    2 => <P as Gx>::undecodable(),
+                    3 => match other {
+                        // the element at the same position of another accepted proof
+                        Some(o) => match pos {
+                            0 => o.a,
+                            1 => o.a1,
+                            2 => o.b,
+                            k => {
+                                let j = ((k - 3) / 2) % o.lr.len().max(1);
+                                if o.lr.is_empty() {
+                                    o.a
+                                } else if (k - 3) % 2 == 0 {
+                                    o.lr[j].0
+                                } else {
+                                    o.lr[j].1
+                                }
+                            },
+                        },
+                        None => enc(&<P as Gx>::random_point(rng)),
+                    },
+                    _ => {
+                        // another element of the same proof
+                        match pos {
+                            0 => parts.a1,
+                            1 => parts.b,
+                            2 => parts.a,
+                            k => {
+                                let j = (k - 3) / 2;
+                                if (k - 3) % 2 == 0 {
+                                    parts.lr[j].1
+                                } else {
+                                    parts.lr[j].0
+                                }
+                            },
+                        }
+                    },
+                };
+                *slot = repl;
+            }
+            if p != *parts {
+                let _ = cur;
+                pushm(&mut v, 
+                    format!("proof.{name} -> {}", ["random point", "identity", "undecodable", "other proof's", "sibling element"][how]),
+                    Alter::Proof(p),
+                );
+            }
+        }
+    }
+    // swap L_j <-> L_j'
+    if parts.lr.len() >= 2 {
+        let mut p = parts.clone();
+        let j = rot % (parts.lr.len() - 1);
+        let t = p.lr[j].0;
+        p.lr[j].0 = p.lr[j + 1].0;
+        p.lr[j + 1].0 = t;
+        if p != *parts {
+            pushm(&mut v, format!("proof.L[{j}] <-> L[{}]", j + 1), Alter::Proof(p));
+        }
+        let mut p = parts.clone();
+        p.lr.swap(j, j + 1);
+        if p != *parts {
+            pushm(&mut v, format!("proof rounds {j} and {} exchanged", j + 1), Alter::Proof(p));
+        }
+    }
+    // rounds +- 1
+    {
+        let mut p = parts.clone();
+        p.lr.push((enc(&<P as Gx>::random_point(rng)), enc(&<P as Gx>::random_point(rng))));
+        pushm(&mut v, "proof rounds + 1".into(), Alter::Proof(p));
+        let mut p = parts.clone();
+        if let Some(last) = p.lr.last().copied() {
+            p.lr.push(last);
+            pushm(&mut v, "proof last round duplicated".into(), Alter::Proof(p));
+        }
+        if parts.lr.len() >= 1 {
+            let mut p = parts.clone();
+            p.lr.pop();
+            pushm(&mut v, "proof rounds - 1".into(), Alter::Proof(p));
+        }
+    }
+    // degree byte (bytes re-interpreted) and d1 length
+    for nd in 1..=6u8 {
+        if nd as usize != parts.d1.len() {
+            let mut p = parts.clone();
+            p.ext_byte = nd;
+            // keep the element list as is: the decoder re-splits it under the new degree
+            let mut bytes = p.to_bytes();
+            bytes[0] = nd;
+            let n_el = (bytes.len() - 1) / 32;
+            if n_el >= 5 + nd as usize + 2 && (n_el - 5 - nd as usize) % 2 == 0 {
+                pushm(&mut v, format!("proof degree byte {} -> {nd} (same elements)", parts.d1.len()), Alter::Proof(Parts::from_bytes(&bytes)));
+            }
+            if density >= 2 || nd as usize == parts.d1.len() + 1 || nd as usize + 1 == parts.d1.len() {
+                let mut p = parts.clone();
+                p.ext_byte = nd;
+                p.d1.resize(nd as usize, Scalar::ONE.to_bytes());
+                pushm(&mut v, format!("proof degree {} -> {nd} (d1 resized)", parts.d1.len()), Alter::Proof(p));
+            }
+        }
+    }
+    // --- commitments
+    let prm = case.params();
+    for j in 0..cfg.m {
+        let kinds = 3usize;
+        for how in 0..density.min(kinds) {
+            let how = (how + rot + j) % kinds;
+            let mut c = case.commitments.clone();
+            c[j] = match how {
+                0 => &c[j] + prm.h_base(),
+                1 => &c[j] + &prm.g_bases()[(rot + j) % cfg.ext],
+                _ => <P as Gx>::random_point(rng),
+            };
+            pushm(&mut v, format!("commitment[{j}] -> {}", ["+H", "+G_k", "random point"][how]), Alter::Commitments(c));
+        }
+    }
+    if cfg.m >= 2 {
+        let j = rot % (cfg.m - 1);
+        if case.commitments[j] != case.commitments[j + 1] {
+            let mut c = case.commitments.clone();
+            c.swap(j, j + 1);
+            pushm(&mut v, format!("commitments {j} and {} exchanged", j + 1), Alter::Commitments(c));
+        }
+        let mut c = case.commitments.clone();
+        c[cfg.m - 1] = c[0].clone();
+        if c != case.commitments {
+            pushm(&mut v, "last commitment replaced by the first".into(), Alter::Commitments(c));
+        }
+    }
+    // --- promises
+    let maxv = cfg.max_value();
+    for j in 0..cfg.m {
+        let cur = case.promises[j];
+        let curv = cur.unwrap_or(0);
+        let mut cands: Vec<(String, Option<u64>)> = vec![];
+        if curv < maxv {
+            cands.push(("+1".into(), Some(curv + 1)));
+        }
+        if curv > 0 {
+            cands.push(("-1".into(), Some(curv - 1)));
+            cands.push(("-> None".into(), None));
+            cands.push(("-> 0".into(), Some(0)));
+        }
+        if curv != maxv {
+            cands.push(("-> 2^n-1".into(), Some(maxv)));
+        }
+        let take = if density >= 2 { cands.len() } else { 2.min(cands.len()) };
+        for (nm, val) in cands.into_iter().skip(rot % 2).take(take.max(1)) {
+            let mut p = case.promises.clone();
+            p[j] = val;
+            if p[j].unwrap_or(0) != curv {
+                pushm(&mut v, format!("promise[{j}] {cur:?} {nm}"), Alter::Promises(p));
+            }
+        }
+        // the no-op: None <-> Some(0)
+        if curv == 0 {
+            let mut p = case.promises.clone();
+            p[j] = if cur.is_none() { Some(0) } else { None };
+            v.push(Mutation { name: format!("promise[{j}] {cur:?} <-> {:?} (no-op)", p[j]), alter: Alter::Promises(p), noop: true });
+        }
+    }
+    // --- bit length
+    for n2 in [cfg.n * 2, cfg.n / 2] {
+        if n2 >= 1 && n2 <= 64 && n2 != cfg.n && n2 * cfg.cap <= 8192 {
+            pushm(&mut v, format!("bit length {} -> {n2}", cfg.n), Alter::Gens(n2, prm.pc_gens().clone()));
+        }
+    }
+    // --- generators H, G_k
+    {
+        let mut pc = prm.pc_gens().clone();
+        pc.h_base = <P as Gx>::random_point(rng);
+        pc.h_base_compressed = pc.h_base.compress();
+        pushm(&mut v, "generator H -> random point".into(), Alter::Gens(cfg.n, pc));
+        let mut pc = prm.pc_gens().clone();
+        pc.h_base = &pc.h_base + &pc.g_base_vec[0];
+        pc.h_base_compressed = pc.h_base.compress();
+        pushm(&mut v, "generator H -> H + G_0".into(), Alter::Gens(cfg.n, pc));
+    }
+    for k in 0..cfg.ext {
+        let mut pc = prm.pc_gens().clone();
+        pc.g_base_vec[k] = <P as Gx>::random_point(rng);
+        pc.g_base_compressed_vec[k] = pc.g_base_vec[k].compress();
+        pushm(&mut v, format!("generator G[{k}] -> random point"), Alter::Gens(cfg.n, pc));
+    }
+    if cfg.ext >= 2 {
+        let mut pc = prm.pc_gens().clone();
+        let k = rot % (cfg.ext - 1);
+        pc.g_base_vec.swap(k, k + 1);
+        pc.g_base_compressed_vec.swap(k, k + 1);
+        pushm(&mut v, format!("generators G[{k}] and G[{}] exchanged", k + 1), Alter::Gens(cfg.n, pc));
+    }
+    // --- transcript context
+    {
+        let mut c = case.ctx.clone();
+        c.label = (c.label + 1) % LABELS.len();
+        pushm(&mut v, "transcript label changed".into(), Alter::Ctx(c));
+        let mut c = case.ctx.clone();
+        c.extra.push(vec![0x42]);
+        pushm(&mut v, "extra message appended to the context".into(), Alter::Ctx(c));
+        if !case.ctx.extra.is_empty() {
+            let mut c = case.ctx.clone();
+            let last = c.extra.len() - 1;
+            if c.extra[last].is_empty() {
+                c.extra[last].push(1);
+            } else {
+                c.extra[last][0] ^= 1;
+            }
+            pushm(&mut v, "one bit of a context message flipped".into(), Alter::Ctx(c));
+            let mut c = case.ctx.clone();
+            c.extra.pop();
+            pushm(&mut v, "context message removed".into(), Alter::Ctx(c));
+        }
+    }
+    v
+}
